@@ -833,199 +833,6 @@ Proof.
 Qed.
 
 (* ====================================================================================================
-   reusable_storage_mtsafe under every schedule of any number of threads *)
-Definition wonw (t : thread) : Z := match t_won t with Some _ => 1 | None => 0 end.
-Fixpoint nwon (l : list thread) : Z := match l with [] => 0 | t :: r => wonw t + nwon r end.
-Arguments nwon : simpl never.
-
-Lemma wonw_nonneg t : 0 <= wonw t. Proof. unfold wonw. destruct (t_won t); lia. Qed.
-Lemma nwon_nonneg l : 0 <= nwon l.
-Proof. induction l as [|t l IH]; unfold nwon; fold nwon; [lia|]. pose proof (wonw_nonneg t). lia. Qed.
-
-Lemma nwon_set_nth l i t t' : nth_error l i = Some t -> nwon (set_nth l i t') = nwon l - wonw t + wonw t'.
-Proof.
-  revert i. induction l as [|x l IH]; intros [|i] H; cbn [nth_error set_nth] in *; try discriminate.
-  - inversion H; subst. unfold nwon; fold nwon. lia.
-  - unfold nwon; fold nwon. rewrite (IH _ H). lia.
-Qed.
-
-Lemma nwon_ge l i t : nth_error l i = Some t -> wonw t <= nwon l.
-Proof.
-  revert i. induction l as [|x l IH]; intros [|i] H; cbn [nth_error] in *; try discriminate.
-  - inversion H; subst. unfold nwon; fold nwon. pose proof (nwon_nonneg l). lia.
-  - unfold nwon; fold nwon. specialize (IH _ H). pose proof (wonw_nonneg x). lia.
-Qed.
-
-Definition act_pos (a : act) : Prop := match a with ACreate sz => 0 < sz | AFin _ => True end.
-Definition thr_pos (t : thread) : Prop :=
-  Forall act_pos (t_prog t) /\ match t_won t with Some sz => 0 < sz | None => True end.
-
-Record CInv (s : cst) : Prop := {
-  ci_inv : InvT pm (nwon (c_thr s)) (hp (c_core s)) (st (c_core s)) (frs (c_core s));
-  ci_keys : forall k, In k (keys (frs (c_core s))) -> (k < c_nfid (c_core s))%nat;
-  ci_pos : Forall thr_pos (c_thr s)
-}.
-
-Lemma Forall_set_nth {A} (P : A -> Prop) l i x : Forall P l -> P x -> Forall P (set_nth l i x).
-Proof.
-  intros H. revert i. induction H as [|y l Hy Hl IH]; intros [|i] Px; cbn [set_nth]; constructor; auto.
-Qed.
-
-Lemma Forall_nth_error {A} (P : A -> Prop) l i x : Forall P l -> nth_error l i = Some x -> P x.
-Proof. intros H E. rewrite Forall_forall in H. apply H. exact (nth_error_In _ _ E). Qed.
-
-Lemma sanitize_pos : forall l live, Forall act_pos (sanitize live l).
-Proof.
-  induction l as [|a l IH]; intros live; cbn [sanitize].
-  - induction live; cbn [repeat]; constructor; cbn; auto.
-  - destruct a as [sz|b].
-    + destruct (0 <? sz) eqn:G; [constructor; [cbn; lia|apply IH]|apply IH].
-    + destruct live; [apply IH|constructor; [exact Logic.I|apply IH]].
-Qed.
-
-Lemma cinit_CInv ops : CInv (cinit ops).
-Proof.
-  unfold cinit. assert (W : forall l, nwon (flat_map decode_thread l) = 0 /\ Forall thr_pos (flat_map decode_thread l)).
-  { induction l as [|o l [IH1 IH2]]; cbn [flat_map]; [split; [reflexivity|constructor]|].
-    unfold decode_thread at 1 3. destruct o as [|z r]; [split; assumption|].
-    destruct (Z.eq_dec z 2) as [->|N].
-    - cbn [app]. split.
-      + unfold nwon; fold nwon. unfold wonw. cbn [t_won]. lia.
-      + constructor; [|exact IH2]. split; cbn [t_prog t_won]; [apply sanitize_pos|exact Logic.I].
-    - assert ((match z with 2 => [mkTh (sanitize 0 (decode_prog r)) None [] 0 []] | _ => [] end) = []) as ->.
-      { destruct z as [|q|q]; try reflexivity. repeat (destruct q as [q|q|]; try reflexivity). congruence. }
-      cbn [app]. split; assumption. }
-  destruct (W ops) as [W1 W2]. constructor; cbn [c_core c_thr].
-  - rewrite W1. destruct (init_inv pm) as [I _]; cbn; try lia; [discriminate|exact I].
-  - cbn. intros k [].
-  - exact W2.
-Qed.
-
-Lemma tstep_CInv s i : CInv s -> CInv (fst (tstep s i)).
-Proof.
-  intros [I K P]. unfold tstep. destruct (nth_error (c_thr s) i) as [t|] eqn:ET; [|cbn [fst]; constructor; assumption].
-  pose proof (Forall_nth_error _ _ _ _ P ET) as [PP PW].
-  set (c := c_core s) in *.
-  assert (FR : ~ In (c_nfid c) (keys (frs c))) by (intros A; specialize (K _ A); lia).
-  destruct (t_won t) as [sz|] eqn:EW.
-  - (* busy_g: the winner takes or regrows the shared block *)
-    pose proof (nwon_ge _ _ _ ET) as GE. unfold wonw in GE. rewrite EW in GE.
-    assert (I1 : InvT pm ((nwon (c_thr s) - 1) + 1) (hp c) (st c) (frs c)) by (replace (nwon (c_thr s) - 1 + 1) with (nwon (c_thr s)) by lia; exact I).
-    pose proof (mts_won_inv pm (nwon (c_thr s) - 1) (hp c) (st c) (frs c) (c_nfid c) (c_nfid c) sz eq_refl ltac:(lia) I1 PW FR) as W.
-    unfold mk_frame. destruct (mts_won (hp c) (st c) sz) as [[h1 s1] g]. cbn [fst upd p_x pm].
-    constructor; unfold upd; cbn [c_core c_thr hp st frs c_nfid].
-    + rewrite (nwon_set_nth _ _ _ _ ET). unfold wonw. rewrite EW. cbn [t_won]. rewrite ?Z.add_0_r.
-      match goal with |- InvT _ ?k _ _ _ => replace k with (nwon (c_thr s) - 1) by lia end. exact W.
-    + cbn [keys map fst]. intros k [<-|A]; [lia|]. specialize (K _ A). lia.
-    + apply Forall_set_nth; [exact P|]. split; cbn [t_prog t_won]; auto.
-  - destruct (t_prog t) as [|[sz|nw] r] eqn:EPg; [cbn [fst]; constructor; assumption| |].
-    + (* busy_x *)
-      inversion PP as [|? ? PA PR]; subst. cbn [act_pos] in PA.
-      destruct (s_busy (st c)) eqn:B.
-      * pose proof (mts_lost_inv pm (nwon (c_thr s)) (hp c) (st c) (frs c) (c_nfid c) (c_nfid c) sz eq_refl I PA FR) as W.
-        unfold mk_frame. destruct (mts_lost (hp c) (st c) sz) as [[h1 s1] g]. cbn [fst upd p_x pm].
-        constructor; unfold upd; cbn [c_core c_thr hp st frs c_nfid].
-        -- rewrite (nwon_set_nth _ _ _ _ ET). unfold wonw. rewrite EW. cbn [t_won]. rewrite ?Z.add_0_r.
-           match goal with |- InvT _ ?k _ _ _ => replace k with (nwon (c_thr s)) by lia end. exact W.
-        -- cbn [keys map fst]. intros k [<-|A]; [lia|]. specialize (K _ A). lia.
-        -- apply Forall_set_nth; [exact P|]. split; cbn [t_prog t_won]; auto.
-      * destruct (mts_claim_inv pm _ _ _ _ eq_refl I B) as [Z0 I1].
-        cbn [fst upd]. constructor; unfold upd; cbn [c_core c_thr with_busy hp st frs c_nfid].
-        -- rewrite (nwon_set_nth _ _ _ _ ET). unfold wonw. rewrite EW. cbn [t_won].
-           match goal with |- InvT _ ?k _ _ _ => replace k with (1) by lia end. exact I1.
-        -- exact K.
-        -- apply Forall_set_nth; [exact P|]. split; cbn [t_prog t_won]; auto.
-    + (* busy_s *)
-      inversion PP as [|? ? PA PR]; subst.
-      assert (SKIP : CInv (upd s c i (mkTh r None (t_own t) (S (t_done t)) (t_res t ++ [[Z.of_nat i; Z.of_nat (t_done t); 0]])))).
-      { constructor; unfold upd; cbn [c_core c_thr].
-        - rewrite (nwon_set_nth _ _ _ _ ET). unfold wonw. rewrite EW. cbn [t_won].
-          match goal with |- InvT _ ?k _ _ _ => replace k with (nwon (c_thr s)) by lia end. exact I.
-        - exact K.
-        - apply Forall_set_nth; [exact P|]. split; cbn [t_prog t_won]; auto. }
-      destruct (pick nw (t_own t)) as [[slot rest]|]; [|exact SKIP].
-      destruct (fget (frs c) slot) as [f|] eqn:GF; [|exact SKIP].
-      pose proof (finish_inv pm _ _ _ _ slot f I GF) as W. unfold finish.
-      destruct (bdealloc pm (hp c) (st c) (f_blk f) (f_tr f)) as [h1 s1]. cbn [fst upd].
-      constructor; unfold upd; cbn [c_core c_thr hp st frs c_nfid].
-      * rewrite (nwon_set_nth _ _ _ _ ET). unfold wonw. rewrite EW. cbn [t_won].
-        match goal with |- InvT _ ?k _ _ _ => replace k with (nwon (c_thr s)) by lia end. exact W.
-      * intros k A. apply keys_fdel_In in A. apply K, A.
-      * apply Forall_set_nth; [exact P|]. split; cbn [t_prog t_won]; auto.
-Qed.
-
-Lemma run_sched_CInv : forall fuel s sched tr, CInv s -> CInv (fst (run_sched fuel s sched tr)).
-Proof.
-  induction fuel as [|fuel IH]; intros s sched tr C; cbn [run_sched]; [exact C|].
-  destruct (all_enabled s) as [|e en]; [exact C|].
-  set (i := nth _ _ _). pose proof (tstep_CInv s i C) as C1.
-  destruct (tstep s i) as [s1 pt]. apply IH. exact C1.
-Qed.
-
-(* every state reachable by thread steps in any order *)
-Inductive mt_reach (ops : list (list Z)) : cst -> Prop :=
-| mr_init : mt_reach ops (cinit ops)
-| mr_step s i : mt_reach ops s -> mt_reach ops (fst (tstep s i)).
-
-Lemma reach_CInv ops s : mt_reach ops s -> CInv s.
-Proof. induction 1; [apply cinit_CInv|apply tstep_CInv; assumption]. Qed.
-
-Lemma mt_exclusive ops s i j fi fj : mt_reach ops s ->
-  fget (frs (c_core s)) i = Some fi -> fget (frs (c_core s)) j = Some fj -> i <> j -> f_blk fi <> f_blk fj.
-Proof.
-  intros R. destruct (reach_CInv _ _ R) as [I _ _]. exact (blocks_distinct _ _ _ _ _ (i_blocks _ _ _ _ _ I)).
-Qed.
-
-(* the shared block: at most one holder (a live frame in it, or a thread that won _busy and has not allocated yet) *)
-Lemma mt_one_holder ops s : mt_reach ops s ->
-  nwon (c_thr s) + sumw trw (frs (c_core s)) = b2z (s_busy (st (c_core s))) /\
-  forall i f, In (i, f) (frs (c_core s)) ->
-    if f_tr f then f_blk f = optblk (s_ptr (st (c_core s)))
-    else exists b, f_blk f = BHeap b /\ s_ptr (st (c_core s)) <> Some b.
-Proof.
-  intros R. destruct (reach_CInv _ _ R) as [I _ _]. split.
-  - exact (proj2 (i_busy _ _ _ _ _ I)).
-  - intros i f A. exact (proj2 (proj2 (proj2 (proj2 (i_frames _ _ _ _ _ I _ _ A))))).
-Qed.
-
-Lemma mt_valid_sized ops s i f : mt_reach ops s -> In (i, f) (frs (c_core s)) ->
-  0 < f_n f /\ f_n f + ptr_sz <= f_room f /\ exists b, f_blk f = BHeap b /\ In (b, f_room f) (h_live (hp (c_core s))).
-Proof.
-  intros R A. destruct (reach_CInv _ _ R) as [I _ _].
-  destruct (i_frames _ _ _ _ _ I _ _ A) as (F1 & F2 & F3 & V & RR). cbn [pm p_pol trailer] in *.
-  split; [exact F1|]. split; [lia|].
-  destruct (f_blk f) as [|b|j]; try contradiction. exists b. auto.
-Qed.
-
-Lemma mt_freed_once ops s : mt_reach ops s ->
-  let h := hp (c_core s) in
-  h_bad h = 0 /\ h_allocs h - h_frees h = zlen (h_live h) /\
-  zlen (h_live h) = nsown PMts (st (c_core s)) + sumw (owns PMts) (frs (c_core s)) /\
-  (frs (c_core s) = [] -> let h1 := hp (destroy pm (c_core s)) in h_live h1 = [] /\ h_allocs h1 = h_frees h1 /\ h_bad h1 = 0).
-Proof.
-  intros R h. destruct (reach_CInv _ _ R) as [I _ _]. pose proof (i_heap _ _ _ _ _ I) as HK. fold h in HK.
-  pose proof (i_cnt _ _ _ _ _ I) as C. cbn [pm p_pol] in C. fold h in C.
-  refine (conj (hk_bad _ HK) (conj (hk_cnt _ HK) (conj C _))).
-  intros E. rewrite E, sumw_nil in C. unfold destroy. cbn [pm p_pol hp]. fold h.
-  pose proof (i_sto _ _ _ _ _ I) as S. unfold sto_ok in S. cbn [pm p_pol] in S. destruct S as [_ S].
-  destruct (destroy_heap h (s_ptr (st (c_core s))) HK) as [D1 D2].
-  - cbn [nsown] in C. lia.
-  - intros b EB. rewrite EB in S. eexists. exact S.
-  - split; [exact D2|]. pose proof (hk_cnt _ D1) as C1. rewrite D2 in C1. unfold zlen in C1. cbn [length] in C1.
-    split; [lia|exact (hk_bad _ D1)].
-Qed.
-
-Lemma mt_final_reach ops : mt_reach ops (fst (mt_final ops)).
-Proof.
-  unfold mt_final. generalize (2 * sumlen (c_thr (cinit ops)) + 2)%nat (flat_map decode_sched ops) (@nil (nat * Z)).
-  intros fuel. assert (G : forall s, mt_reach ops s -> forall sched tr, mt_reach ops (fst (run_sched fuel s sched tr))).
-  { induction fuel as [|fuel IH]; intros s R sched tr; cbn [run_sched]; [exact R|].
-    destruct (all_enabled s) as [|e en]; [exact R|]. set (i := nth _ _ _).
-    pose proof (mr_step ops s i R) as R1. destruct (tstep s i) as [s1 pt]. apply IH. exact R1. }
-  apply G. constructor.
-Qed.
-
-(* ====================================================================================================
    warm-up: what the reusing policies have learned *)
 Definition WIs (p : prm) (s : sto) (cm : Z) : Prop :=
   0 <= cm /\
